@@ -17,8 +17,12 @@ import builtins
 import gc
 import json
 import logging
+import os
 import pathlib
+import pickle
 import shutil
+import signal
+import time
 import zlib
 from pathlib import Path
 
@@ -52,6 +56,48 @@ SUFFIX = {"bin": ".bin", "cbin": ".cbin", "cbin_tmp": ".cbin_tmp", "ch": ".ch", 
 EVK = {"readopen": 1, "openw": 2, "compute": 3, "append": 4, "dump": 5, "verify": 6, "rename": 7,
        "unlink": 8, "copy": 9}
 OPS = ["compress_file", "decompress_file", "decompress_to_scratch"]
+
+
+class CaseTimeout(Exception):
+    pass
+
+
+class GiveUp(BaseException):
+    """Two cases hung: stop exercising the implementation, report what has been found."""
+
+
+TIMEOUTS = [0]
+
+
+def guarded(ctx, what, desc, tags, fn, seconds=60):
+    """Run one case of the implementation under an alarm; anything it throws at the harness (exceptions of
+    any type out of observation code, a hang) becomes a failing input instead of a crash of the check."""
+    def on_alarm(signum, frame):
+        raise CaseTimeout("no result after %d s" % seconds)
+    _crumb(desc)
+    old = signal.signal(signal.SIGALRM, on_alarm)
+    signal.setitimer(signal.ITIMER_REAL, seconds)
+    try:
+        return fn()
+    except Exception as e:      # noqa
+        signal.setitimer(signal.ITIMER_REAL, 0)
+        ctx.fail("%s: %s %r" % (what, type(e).__name__, e), desc, tags)
+        if isinstance(e, CaseTimeout):
+            TIMEOUTS[0] += 1
+            if TIMEOUTS[0] >= 2:
+                raise GiveUp()
+        return None
+    finally:
+        signal.setitimer(signal.ITIMER_REAL, 0)
+        signal.signal(signal.SIGALRM, old)
+
+
+def memmap_safe(raw):
+    """True if reading the whole np.memmap cannot fault: the mapped file is still at least as long as the map."""
+    try:
+        return (not raw._mmap.closed) and raw._mmap.size() >= raw.offset + raw.nbytes
+    except Exception:
+        return False
 
 
 def _imports():
@@ -106,8 +152,13 @@ def codec_case(tdir, nc, ns, cs, D, nthreads, stem="rec_g0_t0.nidq", as_str=Fals
     obs = {"nc": nc, "ns": ns, "cs": cs, "problems": []}
     sr = spikeglx.Reader(str(b) if as_str else b)
     out = sr.compress_file(keep_original=True, chunk_duration=cs / FS, n_threads=nthreads)
-    if Path(out) != b.with_suffix(".cbin") or not Path(out).exists():
+    if not _same_path(out, b.with_suffix(".cbin")) or not b.with_suffix(".cbin").exists():
         obs["problems"].append("compress_file did not return/create x.cbin")
+        out = b.with_suffix(".cbin")
+    if b.read_bytes() != D.tobytes():
+        obs["problems"].append("compress_file(keep_original=True) changed the bytes of x.bin")
+    if isinstance(sr._raw, np.memmap) and not memmap_safe(sr._raw):
+        raise RuntimeError("compress_file(keep_original=True) truncated x.bin under the open reader")
     cm = json.loads(b.with_suffix(".ch").read_text())
     raw = Path(out).read_bytes()
     obs["bounds"] = [int(x) for x in cm["chunk_bounds"]]
@@ -524,6 +575,8 @@ def fs_case(world, d, sc):
             else:
                 obs["ret"] = sr.decompress_to_scratch(scratch_dir=(d / "scratch") if sc["sd"] else None)
         except BaseException as e:      # noqa
+            if isinstance(e, (CaseTimeout, GiveUp, KeyboardInterrupt)):
+                raise
             exc = e
     obs["exc"] = None if exc is None else type(exc).__name__
     obs["in_codec"] = False
@@ -545,6 +598,13 @@ def fs_case(world, d, sc):
         pass
     fs_oracle(world, sc, fp, obs)
     return obs
+
+
+def _same_path(ret, want):
+    try:
+        return Path(ret) == Path(want)
+    except Exception:
+        return False
 
 
 def fs_oracle(world, sc, fp, obs):
@@ -569,7 +629,7 @@ def fs_oracle(world, sc, fp, obs):
             if fin["cbin"] != comp or fin["ch"] != hdr or fin["cbin_tmp"][0] != 0:
                 P.append(("done_incomplete", "compress_file returned but cbin/ch/tmp are %s/%s/%s" % (
                     fin["cbin"], fin["ch"], fin["cbin_tmp"])))
-            if Path(obs["ret"]) != fp["cbin"]:
+            if not _same_path(obs["ret"], fp["cbin"]):
                 P.append(("return", "compress_file returned %s" % obs["ret"]))
             want = fp["bin"] if sc["keep"] else fp["cbin"]
             if obs["file_bin"] != str(want):
@@ -601,7 +661,7 @@ def fs_oracle(world, sc, fp, obs):
         if done:
             if fin["bin"] != orig:
                 P.append(("done_incomplete", "decompress_file returned but x.bin is %s" % fin["bin"]))
-            if Path(obs["ret"]) != fp["bin"]:
+            if not _same_path(obs["ret"], fp["bin"]):
                 P.append(("return", "decompress_file returned %s" % obs["ret"]))
             if (fin["cbin"][0] == 0 and fin["ch"][0] == 0) != (not sc["keep"]):
                 P.append(("keep", "keep_original=%s but x.cbin/x.ch are %s/%s" % (sc["keep"], fin["cbin"], fin["ch"])))
@@ -614,7 +674,7 @@ def fs_oracle(world, sc, fp, obs):
         if init[tgt][0] in (0, 2) and fin[tgt][0] in (1, 9):
             P.append(("final_partial", "scratch .bin exists and is incomplete: %s" % fin[tgt]))
         if done:
-            if Path(obs["ret"]) != fp[tgt]:
+            if not _same_path(obs["ret"], fp[tgt]):
                 P.append(("return", "decompress_to_scratch returned %s" % obs["ret"]))
             if init[tgt][0] == 0 and (fin[tgt] != orig or fin[tmp][0] != 0):
                 P.append(("done_incomplete", "decompress_to_scratch returned but bin/tmp are %s/%s" % (fin[tgt], fin[tmp])))
@@ -721,7 +781,9 @@ def _raw_kind(sr):
     if raw is None:
         return 0
     if isinstance(raw, np.memmap):
-        return 3 if raw._mmap.closed else 1
+        if raw._mmap.closed:
+            return 3
+        return 1 if memmap_safe(raw) else 4      # 4: the file under the map has been truncated (reading would fault)
     cd = getattr(raw, "cdata", None)
     return 3 if (cd is None or cd.closed) else 2
 
@@ -825,6 +887,8 @@ def object_case(tdir, nc, n, cs, ns0, f0, ops, D, stem="rec_g0_t0.nidq", as_str=
             if op in (2, 4) and not raised and open_before and not sr.is_open:
                 obs["problems"].append(("object_unopened", "%s: the object was open before the in-place call and is not "
                                         "open after it" % tag))
+            if rk == 4:
+                obs["problems"].append(("object_truncated", "%s: the file under the object's memmap was truncated" % tag))
             if rk == 3 and sr.is_open:
                 obs["problems"].append(("object_raw_closed", "%s: is_open is True, file_bin is %s, but the raw reader is closed" % (
                     tag, Path(sr.file_bin).suffix)))
@@ -960,11 +1024,102 @@ def model_file_code(obs):
 
 
 # --------------------------------------------------------------------------
+BREADCRUMB = [None]
+
+
+def _crumb(desc):
+    """Remember (on disk) which case is being exercised, so that if the implementation takes the interpreter
+    down (SIGBUS on a truncated memmap, SIGSEGV) the parent can name the failing input."""
+    if BREADCRUMB[0] is not None:
+        try:
+            Path(BREADCRUMB[0]).write_text(json.dumps(desc, default=str)[:200000])
+        except Exception:
+            pass
+
+
 def run(ctx):
     # only C02_cbin_shape_eq_bin_shape (joint with C11's Flocq model) uses the stdlib axioms of the reals
     common.proof_obligations(ctx, whitelist=sorted(common.STDLIB_AXIOMS))
-    rng = ctx.rng
     root = common.tmpdir("C02_run_")
+    try:
+        res = _exercise_in_child(ctx, root)
+        inputs, outputs, descr = res["inputs"], res["outputs"], res["descr"]
+        dist, nontrivial, samples = res["dist"], res["nontrivial"], res["samples"]
+        if inputs:
+            common.correspondence(ctx, PROP, HEADER, inputs, outputs, lambda i: descr[i], n_kernel=80)
+    finally:
+        shutil.rmtree(root, ignore_errors=True)
+    return _finish(ctx, inputs, dist, nontrivial, samples)
+
+
+def _exercise_in_child(ctx, root):
+    """All calls into the implementation happen in a forked child: a crash of the interpreter there (signal) or a
+    dead-lock is a verdict about the code (failing input = the case being exercised), not a crash of the check."""
+    out = Path(root) / "result.pickle"
+    crumb = Path(root) / "current_case.json"
+    budget = 3300 if ctx.thorough() else 1500
+    sys_stdout_flush()
+    pid = os.fork()
+    if pid == 0:
+        code = 0
+        try:
+            BREADCRUMB[0] = str(crumb)
+            try:
+                res = _exercise(ctx, root)
+            except GiveUp:
+                res = {"inputs": [], "outputs": [], "descr": [], "dist": {"gave_up_after_two_hangs": 1},
+                       "nontrivial": set(), "samples": []}
+            res.update(failures=ctx.oracle_failures, disagreements=ctx.disagreements, measurements=ctx.measurements)
+            with open(out, "wb") as f:
+                pickle.dump(res, f)
+        except BaseException:      # noqa
+            import traceback
+            traceback.print_exc()
+            code = 3
+        finally:
+            sys_stdout_flush()
+            os._exit(code)
+    t0 = time.time()
+    status = None
+    while time.time() - t0 < budget:
+        wpid, st = os.waitpid(pid, os.WNOHANG)
+        if wpid == pid:
+            status = st
+            break
+        time.sleep(0.2)
+    if status is None:
+        os.kill(pid, signal.SIGKILL)
+        os.waitpid(pid, 0)
+    empty = {"inputs": [], "outputs": [], "descr": [], "dist": {}, "nontrivial": set(), "samples": []}
+    if status is not None and os.WIFEXITED(status) and os.WEXITSTATUS(status) == 0 and out.exists():
+        with open(out, "rb") as f:
+            res = pickle.load(f)
+        ctx.oracle_failures.extend(res.pop("failures"))
+        ctx.disagreements.extend(res.pop("disagreements"))
+        ctx.measurements.update(res.pop("measurements"))
+        return res
+    try:
+        desc = json.loads(crumb.read_text())
+    except Exception:
+        desc = {"kind": "unknown"}
+    if status is None:
+        what = "the implementation did not return within %d s (dead-lock or endless loop) while this case was exercised" % budget
+    elif os.WIFSIGNALED(status):
+        what = "the implementation took the interpreter down (signal %d) while this case was exercised" % os.WTERMSIG(status)
+    else:
+        what = "the process exercising the implementation ended abnormally (exit %d) on this case" % os.WEXITSTATUS(status)
+    ctx.fail(what, desc, {"kind": "interpreter_crash"})
+    return empty
+
+
+def sys_stdout_flush():
+    import sys
+    sys.stdout.flush()
+    sys.stderr.flush()
+
+
+def _exercise(ctx, root):
+    rng = ctx.rng
     inputs, outputs, descr = [], [], []
     dist = {"codec": 0, "resolve": 0, "fs_compress": 0, "fs_decompress": 0, "fs_scratch": 0, "faulted": 0,
             "fault_free": 0, "stale_files": 0, "nc_ge_384": 0, "last_chunk_short": 0, "single_chunk": 0,
@@ -997,13 +1152,12 @@ def run(ctx):
             as_str = rng.random() < 0.4
             desc = {"kind": "codec", "nc": nc, "ns": ns, "chunk_samples": cs, "content": kind, "stem": stem,
                     "str_path": as_str, "data": [int(x) for x in D.reshape(-1)][:4000]}
-            try:
-                obs = codec_case(d, nc, ns, cs, D, rng.choice([1, 1, 2, 3]), stem, as_str)
-            except Exception as e:
-                ctx.fail("compress/decompress raised %r" % (e,), desc, {"kind": "codec_exception"})
+            nthr = rng.choice([1, 1, 2, 3])
+            obs = guarded(ctx, "compress/decompress raised", desc, {"kind": "codec_exception"},
+                          lambda: codec_case(d, nc, ns, cs, D, nthr, stem, as_str))
+            shutil.rmtree(d, ignore_errors=True)
+            if obs is None:
                 continue
-            finally:
-                shutil.rmtree(d, ignore_errors=True)
             for p in obs["problems"]:
                 ctx.fail(p, desc, {"kind": "codec", "clause": p.split()[0]})
             inputs.append(enc_codec_in(nc, ns, cs, D))
@@ -1028,7 +1182,12 @@ def run(ctx):
             cs2 = rng.choice([cs1 + 1, cs1 + 2, ns, ns + 3])
             nc = rng.choice([1, 2, 3, 5, 385]) if w else 3
             wd = root / ("w%d" % w)
-            world = World(wd, rng, nc, ns, {1: cs1, 2: cs2})
+            world = guarded(ctx, "building the reference streams (mtscomp.compress) failed",
+                            {"kind": "world", "nc": nc, "ns": ns, "chunk_samples": [cs1, cs2]}, {"kind": "world_exception"},
+                            lambda: World(wd, rng, nc, ns, {1: cs1, 2: cs2}))
+            if world is None:
+                shutil.rmtree(wd, ignore_errors=True)
+                continue
             wdesc = {"nc": nc, "ns": ns, "chunk_samples": world.cs, "chunks": world.m, "stem": world.stem}
             # ---------------------------------------------------- resolution: every pattern x entry
             for bits in range(16):
@@ -1037,8 +1196,11 @@ def run(ctx):
                     d = wd / ("res%d_%d" % (bits, entry))
                     desc = {"kind": "resolve", "world": wdesc, "bin": eb, "cbin": ec, "meta": em, "ch": ech,
                             "entry": [".bin", ".cbin", ".meta"][entry]}
-                    obs = resolve_case(world, d, eb, ec, em, ech, entry)
+                    obs = guarded(ctx, "Reader(%s) could not be observed" % desc["entry"], desc, {"kind": "resolve_exception"},
+                                  lambda: resolve_case(world, d, eb, ec, em, ech, entry))
                     shutil.rmtree(d, ignore_errors=True)
+                    if obs is None:
+                        continue
                     in_domain = em and [eb, ec, em][entry] and (eb or (ec and ech)) and \
                         not (entry == 1 and not ech)
                     if in_domain and obs["outcome"] not in (1, 2):
@@ -1064,15 +1226,24 @@ def run(ctx):
                 faults = [None]
                 sc0 = dict(sc, fault=None)
                 d = wd / ("s%d_ff" % si)
-                obs0 = fs_case(world, d, sc0)
+                pdesc = {"kind": "procedure", "op": OPS[sc["op"]], "world": wdesc,
+                         "scenario": {k: sc0[k] for k in ("op", "r", "c", "B", "keep", "chk", "ow", "sd", "fault", "init", "stale")}}
+                obs0 = guarded(ctx, "%s could not be observed" % OPS[sc["op"]], pdesc, {"kind": "procedure_exception"},
+                               lambda: fs_case(world, d, sc0))
                 shutil.rmtree(d, ignore_errors=True)
+                if obs0 is None:
+                    continue
                 runs = [(sc0, obs0)]
                 if si in pick:
                     for k in range(len(obs0["events"]) + (1 if obs0["outcome"] == 2 else 0)):
                         sck = dict(sc, fault=k)
                         d = wd / ("s%d_f%d" % (si, k))
-                        runs.append((sck, fs_case(world, d, sck)))
+                        pdk = dict(pdesc, scenario=dict(pdesc["scenario"], fault=k))
+                        ok_ = guarded(ctx, "%s (fault %d) could not be observed" % (OPS[sc["op"]], k), pdk,
+                                      {"kind": "procedure_exception"}, lambda: fs_case(world, d, sck))
                         shutil.rmtree(d, ignore_errors=True)
+                        if ok_ is not None:
+                            runs.append((sck, ok_))
                 for scx, obs in runs:
                     desc = {"kind": "procedure", "op": OPS[scx["op"]], "world": wdesc,
                             "scenario": {k: scx[k] for k in ("op", "r", "c", "B", "keep", "chk", "ow", "sd", "fault",
@@ -1111,13 +1282,11 @@ def run(ctx):
             desc = {"kind": "object", "nc": nc, "n": n, "chunk_samples": cs, "meta_ns": ns0, "stem": stem, "str_path": as_str,
                     "ignore_warnings": iw, "sort": sort,
                     "start": [".bin", ".cbin"][f0 - 1], "ops": ops, "calls": [OBJ_OPS[o] for o in ops]}
-            try:
-                obs = object_case(d, nc, n, cs, ns0, f0, ops, D, stem, as_str, iw, sort)
-            except Exception as e:
-                ctx.fail("sequence on one Reader raised %r" % (e,), desc, {"kind": "object_exception"})
+            obs = guarded(ctx, "sequence on one Reader raised", desc, {"kind": "object_exception"},
+                          lambda: object_case(d, nc, n, cs, ns0, f0, ops, D, stem, as_str, iw, sort))
+            shutil.rmtree(d, ignore_errors=True)
+            if obs is None:
                 continue
-            finally:
-                shutil.rmtree(d, ignore_errors=True)
             for tag, p in obs["problems"]:
                 ctx.fail(p, desc, {"kind": tag})
             if len(obs["steps"]) != len(ops):
@@ -1136,9 +1305,13 @@ def run(ctx):
             if i in (0, 2):
                 samples.append({"kind": "object", "start": desc["start"], "calls": desc["calls"],
                                 "states[raised,file,nbytes,ns,raw,warned,bin,cbin,scratch_bin]": obs["steps"]})
-        common.correspondence(ctx, PROP, HEADER, inputs, outputs, lambda i: descr[i], n_kernel=80)
     finally:
-        shutil.rmtree(root, ignore_errors=True)
+        pass
+    return {"inputs": inputs, "outputs": outputs, "descr": descr, "dist": dist, "nontrivial": nontrivial,
+            "samples": samples}
+
+
+def _finish(ctx, inputs, dist, nontrivial, samples):
     return common.finish(
         ctx, TRUSTED,
         rule="(a) codec: random int16 matrices (full range, extremes, alternating +-32768, constant, ramp, small) with "
